@@ -94,7 +94,7 @@ impl RateLimit {
 		let nb_mili = match min_duration.as_secs() {
 			0 | 1 => crate::MIN_RATE_LIMIT_SLEEP_MILISEC,
 			n => {
-				let a = n * 200 / nb_req;
+				let a = n.saturating_mul(200) / nb_req;
 				let a = cmp::min(a, crate::MAX_RATE_LIMIT_SLEEP_MILISEC);
 				cmp::max(a, crate::MIN_RATE_LIMIT_SLEEP_MILISEC)
 			}
